@@ -3,6 +3,8 @@
 package main
 
 import (
+	"strconv"
+	"unicode"
 	"bufio"
 	"encoding/hex"
 	"encoding/json"
@@ -115,7 +117,21 @@ func runFront(cases []frontCase, outDir string) {
 		prog, serr := section.Split(fset, "p.patch", src)
 
 		var cs strings.Builder
-		cs.WriteString("(case " + c.ID + " front (hex \"" + hex.EncodeToString(src) + "\") (metas")
+		// Go's Unicode tables for the runes outside ASCII that occur in the patch: a parameter of the model
+		var uniL, uniD strings.Builder
+		seen := map[rune]bool{}
+		for _, r := range string(src) {
+			if r >= 128 && !seen[r] {
+				seen[r] = true
+				if unicode.IsLetter(r) {
+					uniL.WriteString(" " + strconv.Itoa(int(r)))
+				}
+				if unicode.IsDigit(r) {
+					uniD.WriteString(" " + strconv.Itoa(int(r)))
+				}
+			}
+		}
+		cs.WriteString("(case " + c.ID + " front (hex \"" + hex.EncodeToString(src) + "\") (uniletters" + uniL.String() + ") (unidigits" + uniD.String() + ") (metas")
 		var rs strings.Builder
 		rs.WriteString("(res " + c.ID + " (serr" + diagOf(serr) + ") (changes")
 		for _, ch := range prog {
